@@ -2,13 +2,16 @@
 patterns are immutable blueprints.
 
 E1 (progenum): every pattern expression of a bounded grammar is built through
-the library's public constructors / operators and is run three ways
-(`stream.next(inval)`, the iterator protocol / `list(p)`, `stream.all()`); the
-first CAP items and the end position are compared with the denotational
-reference `mc.oracles.patterns_ref`.  Then two streams of the *same* pattern
-object are advanced in all 16 interleavings of length 4 and must each repeat
-the solo sequence, and the pattern graph's `__dict__`s are deep-compared with
-a snapshot taken before the first stream was made.
+the library's public constructors / operators and is run four ways
+(`stream.next(inval)`, the iterator protocol / `list(p)`, the generator
+`stm.embed(p, inval)`, `stream.all()`); the first CAP items and the end
+position are compared with the denotational reference
+`mc.oracles.patterns_ref`, and the runs must agree with one another exactly
+(also for random patterns under Pseed).  Then two streams of the *same*
+pattern object are advanced in all 16 interleavings of length 4 and in two
+long schedules and must each repeat the solo sequence, and the pattern
+graph's `__dict__`s are deep-compared with a snapshot taken before the first
+stream was made.
 
 Equal sub-expressions are built once and shared (hash-consing), so a pattern
 object that occurs twice in an expression is literally the same blueprint
@@ -27,6 +30,7 @@ CAP = 24            # items compared per run
 BUDGET = 100000     # counted events (calls, resumes, jumps, branches) per guarded run
 INVAL = 7           # value passed to stream.next(inval)
 NSHARDS = 64
+LONG_ILV = 8        # items per stream in the two long interleavings
 
 I = 'inf'
 
@@ -78,6 +82,21 @@ def subexprs(expr):
 
 
 RANDOM_HEADS = ('Pwhite', 'Prand', 'Pshuffle')
+# constructors called with their arguments in positional order (trailing
+# arguments may be omitted in an expression: the library default applies)
+LIST_HEADS = ('Pseq', 'Pser', 'Place', 'Ptuple', 'Prand', 'Pshuffle',
+              'Pswitch', 'Pswitch1')
+FILTER_HEADS = ('Pn', 'Plen', 'Pdrop', 'Pstutter', 'Pclump', 'Pflatten',
+                'Pconst', 'Pseed', 'Pdiff', 'Pwrap')
+VALUE_HEADS = ('Pseries', 'Pgeom', 'Pwhite')
+PLAIN_HEADS = LIST_HEADS + FILTER_HEADS + VALUE_HEADS + ('Pif',)
+SLIDE_KW = ('length', 'step', 'start', 'wrap', 'repeats')
+SLIDE_DEFAULT = (3, 1, 0, True, 1)
+UNOP_SRC = {'neg': '(-%s)', 'abs': 'abs(%s)', 'pos': '(+%s)',
+            'invert': '(~%s)'}
+BINOP_SYM = {'add': '+', 'sub': '-', 'mul': '*', 'lt': '<', 'le': '<=',
+             'gt': '>', 'ge': '>=', 'eq': '==', 'ne': '!=', 'div': '/',
+             'floordiv': '//', 'mod': '%', 'pow': '**'}
 SEED1 = ['Pseq', [7], 1, 0]
 
 
@@ -91,25 +110,18 @@ def to_source(expr):
         return repr(expr)
     h, a = expr[0], expr[1:]
     s = to_source
-    if h in ('Pseq', 'Pser', 'Place'):
-        return f'{h}({s(a[0])}, {s(a[1])}, {s(a[2])})'
-    if h in ('Ptuple', 'Prand', 'Pshuffle', 'Pswitch', 'Pswitch1', 'Pn',
-             'Plen', 'Pdrop', 'Pstutter', 'Pclump', 'Pflatten', 'Pconst',
-             'Pseed'):
-        return f'{h}({s(a[0])}, {s(a[1])})'
-    if h == 'Pdiff':
-        return f'Pdiff({s(a[0])})'
     if h == 'Pslide':
-        return ('Pslide(%s, length=%s, step=%s, start=%s, wrap=%s, '
-                'repeats=%s)' % tuple(s(i) for i in a))
-    if h in ('Pseries', 'Pgeom', 'Pwhite', 'Pif', 'Pwrap'):
-        return f'{h}({s(a[0])}, {s(a[1])}, {s(a[2])})'
+        kw = ', '.join('%s=%s' % (k, s(v))
+                       for k, v in zip(SLIDE_KW, a[1:]))
+        return 'Pslide(%s%s)' % (s(a[0]), ', ' + kw if kw else '')
+    if h in PLAIN_HEADS:
+        return '%s(%s)' % (h, ', '.join(s(i) for i in a))
     if h in ('Pcollect', 'Pselect', 'Preject'):
         return f'{h}(F_{a[0]}, {s(a[1])})'
     if h == 'unop':
-        return {'neg': '(-%s)', 'abs': 'abs(%s)'}[a[0]] % s(a[1])
+        return UNOP_SRC[a[0]] % s(a[1])
     if h == 'binop':
-        sym = {'add': '+', 'sub': '-', 'mul': '*', 'lt': '<'}.get(a[0])
+        sym = BINOP_SYM.get(a[0])
         if sym:
             return f'({s(a[1])} {sym} {s(a[2])})'
         return f'bi.{a[0]}({s(a[1])}, {s(a[2])})'
@@ -142,6 +154,19 @@ def standalone(expr, n):
 # building the real objects
 # ---------------------------------------------------------------------------
 
+PY_UNOPS = {'neg': lambda x: -x, 'abs': lambda x: abs(x),
+            'pos': lambda x: +x, 'invert': lambda x: ~x}
+PY_BINOPS = {
+    'add': lambda x, y: x + y, 'sub': lambda x, y: x - y,
+    'mul': lambda x, y: x * y, 'lt': lambda x, y: x < y,
+    'le': lambda x, y: x <= y, 'gt': lambda x, y: x > y,
+    'ge': lambda x, y: x >= y, 'eq': lambda x, y: x == y,
+    'ne': lambda x, y: x != y, 'div': lambda x, y: x / y,
+    'floordiv': lambda x, y: x // y, 'mod': lambda x, y: x % y,
+    'pow': lambda x, y: x ** y,
+}
+
+
 def build(expr, memo):
     if not is_node(expr):
         if expr == 'inf':
@@ -161,44 +186,28 @@ def build(expr, memo):
 
     def b(x):
         return build(x, memo)
-    if h in ('Pseq', 'Pser', 'Place'):
-        obj = getattr(lp, h)(b(a[0]), b(a[1]), b(a[2]))
-    elif h in ('Ptuple', 'Prand', 'Pshuffle', 'Pswitch', 'Pswitch1'):
-        obj = getattr(lp, h)(b(a[0]), b(a[1]))
+    if h in LIST_HEADS:
+        obj = getattr(lp, h)(*[b(i) for i in a])
     elif h == 'Pslide':
-        obj = lp.Pslide(b(a[0]), length=b(a[1]), step=b(a[2]), start=b(a[3]),
-                        wrap=b(a[4]), repeats=b(a[5]))
-    elif h in ('Pn', 'Plen', 'Pdrop', 'Pstutter', 'Pclump', 'Pflatten',
-               'Pconst', 'Pseed'):
-        obj = getattr(fp, h)(b(a[0]), b(a[1]))
-    elif h == 'Pdiff':
-        obj = fp.Pdiff(b(a[0]))
-    elif h == 'Pwrap':
-        obj = fp.Pwrap(b(a[0]), b(a[1]), b(a[2]))
+        obj = lp.Pslide(b(a[0]), **{k: b(v) for k, v in zip(SLIDE_KW, a[1:])})
+    elif h in FILTER_HEADS:
+        obj = getattr(fp, h)(*[b(i) for i in a])
     elif h in ('Pcollect', 'Pselect', 'Preject'):
         obj = getattr(fp, h)(ref.FUNCS[a[0]], b(a[1]))
-    elif h in ('Pseries', 'Pgeom', 'Pwhite'):
-        obj = getattr(vp, h)(b(a[0]), b(a[1]), b(a[2]))
+    elif h in VALUE_HEADS:
+        obj = getattr(vp, h)(*[b(i) for i in a])
     elif h == 'Pif':
         obj = fnp.Pif(b(a[0]), b(a[1]), b(a[2]))
     elif h == 'unop':
         x = b(a[1])
-        obj = -x if a[0] == 'neg' else abs(x)
+        obj = PY_UNOPS[a[0]](x)
     elif h == 'binop':
         x, y = b(a[1]), b(a[2])
         op = a[0]
-        if op == 'add':
-            obj = x + y
-        elif op == 'sub':
-            obj = x - y
-        elif op == 'mul':
-            obj = x * y
-        elif op == 'lt':
-            obj = x < y
-        elif op == 'min':
-            obj = bi.min(x, y)
-        elif op == 'max':
-            obj = bi.max(x, y)
+        if op in PY_BINOPS:
+            obj = PY_BINOPS[op](x, y)     # the Python operator / dunder route
+        elif op in ('min', 'max'):
+            obj = getattr(bi, op)(x, y)
         else:
             raise core.HarnessError(f'binop {op}')
     elif h == 'narop':
@@ -369,6 +378,27 @@ def drive_iter(p, n):
     return guarded([first] + [step] * (n - 1)) if n > 0 else []
 
 
+def drive_embed(p, n):
+    """The embedding protocol used directly: stm.embed(p, inval) is a
+    generator; next() starts it, send(inval) resumes it."""
+    from sc3.base import stream as stm
+    box = {}
+
+    def first():
+        box['g'] = stm.embed(p, INVAL)
+        try:
+            return ['v', next(box['g'])]
+        except StopIteration:
+            return END
+
+    def step():
+        try:
+            return ['v', box['g'].send(INVAL)]
+        except StopIteration:
+            return END
+    return guarded([first] + [step] * (n - 1)) if n > 0 else []
+
+
 def whole(p, how):
     """list(p) / stream.all() for a pattern the reference says is finite."""
     from sc3.base import stream as stm
@@ -454,15 +484,27 @@ def failures(expr):
         msg = ref.perm_groups_ok(items, [t[1] for t in solo[:len(items)]])
         if msg:
             out['perm'] = (exp_show, obs_show, msg)
-    it = drive_iter(p, n)
-    if showtoks(it) != obs_show:
+    for mode, drive in (('iter', drive_iter), ('embed', drive_embed)):
+        it = drive(p, n)
+        if showtoks(it) == obs_show:
+            continue
+        what = {'iter': 'iterator protocol', 'embed': 'stm.embed(p, inval) '
+                'generator'}[mode]
         ci = compare(den, it)
         if ci:
-            out['mode-iter'] = (
+            out['mode-' + mode] = (
                 exp_show, showtoks(it),
-                f'iterator protocol differs from stream.next and from the '
+                f'{what} differs from stream.next and from the '
                 f'reference at item {ci[1]}: expected {ci[2]}, observed '
                 f'{ci[3]}')
+        elif c is None and not bare_random(expr):
+            # both runs satisfy the reference (random values under Pseed)
+            # but are not the same sequence
+            out['repeat'] = (
+                obs_show, showtoks(it),
+                f'{what} on a fresh stream of the same pattern gives '
+                f'another sequence than stream.next (no unseeded random '
+                f'pattern in the expression)')
     if status == 'end' and c is None:
         for how in ('list', 'all'):
             t = whole(p, how)[0]
@@ -487,10 +529,19 @@ def failures(expr):
             solo_tok.append(norm(t[1]))
         else:
             break
-    for w in range(16):
-        res = _interleave(p, w, solo_tok)
+    plans = [[(w >> k) & 1 for k in range(4)] for w in range(16)]
+    m = min(len(solo_tok), LONG_ILV)
+    if m > 2:
+        # longer schedules, streams made at their first use: strict
+        # alternation, and one stream run to its m-th item between the 2nd
+        # and 3rd item of the other
+        plans.append([0, 1] * m)
+        plans.append([0, 0] + [1] * m + [0] * (m - 2))
+    for order in plans:
+        res = _interleave(p, order, solo_tok)
         if res is not None and 'interleave' not in out:
-            out['interleave'] = (solo_tok[:4], res[1],
+            out['interleave'] = (solo_tok[:4 if len(order) == 4 else m],
+                                 res[1],
                                  f'two streams of one pattern advanced in '
                                  f'order {res[0]}; stream {res[2]} deviates '
                                  f'from the solo sequence')
@@ -504,14 +555,15 @@ def failures(expr):
     return out, info
 
 
-def _interleave(p, w, solo_tok):
+def _interleave(p, order, solo_tok):
     from sc3.base import stream as stm
-    order = [(w >> k) & 1 for k in range(4)]
     outs = [[], []]
-    box = {}
+    box = {'s': [None, None]}
+    eager = len(order) == 4
 
     def mk():
-        box['s'] = [stm.stream(p), stm.stream(p)]
+        if eager:
+            box['s'] = [stm.stream(p), stm.stream(p)]
         return ['v', None]
 
     def stepper(i):
@@ -519,6 +571,8 @@ def _interleave(p, w, solo_tok):
             if len(outs[i]) >= len(solo_tok) or \
                     (outs[i] and outs[i][-1] == END):
                 return ['skip']
+            if box['s'][i] is None:
+                box['s'][i] = stm.stream(p)
             try:
                 v = ['v', box['s'][i].next(INVAL)]
             except stm.StopStream:
@@ -598,13 +652,22 @@ def blame(expr, disc):
         real = nxt
 
 
+def slide_args(node):
+    """(length, step, start, wrap, repeats) of a Pslide node, library
+    defaults filled in for omitted trailing arguments."""
+    given = tuple(node[2:])
+    return given + SLIDE_DEFAULT[len(given):]
+
+
 def variant(node):
     """Sub-family of the blamed constructor, so that different defects of one
     class do not share a kind."""
     if node[0] == 'Pslide':
-        if node[5] is not False:
+        step, start, wrap = slide_args(node)[1:4]
+        if wrap is not False:
             return '[wrap]'
-        neg = is_node(node[3]) or (isinstance(node[3], int) and node[3] < 0)
+        neg = is_node(step) or (isinstance(step, int) and step < 0) or \
+            (isinstance(start, int) and start < 0)
         return '[nowrap,step<0]' if neg else '[nowrap]'
     return ''
 
@@ -627,11 +690,25 @@ def check_case(case, info_out=None):
     return [dis[k] for k in sorted(dis)]
 
 
+UNSTABLE_DISCS = ('repeat', 'interleave')
+
+
 def replay(job):
+    """Re-run one case.  For the two repeatability kinds the sequences
+    themselves are left out of the replay result: when the defect is that
+    equal streams differ, they also differ from one replay to the next, and
+    the fact that must reproduce is the disagreement, not its values."""
     dis = check_case(job['case'])
+    rows = []
+    for d in dis:
+        if d[0].split(':')[0] in UNSTABLE_DISCS:
+            rows.append([d[0], '<solo sequence>', '<other stream>',
+                         'two streams of one pattern disagree'])
+        else:
+            rows.append([d[0], core.canon(d[1])[:600],
+                         core.canon(d[2])[:600], d[3]])
     return {'violates': any(d[0] == job['kind'] for d in dis),
-            'disagreements': [[d[0], core.canon(d[1])[:600],
-                               core.canon(d[2])[:600], d[3]] for d in dis]}
+            'disagreements': rows}
 
 
 # ---------------------------------------------------------------------------
@@ -706,6 +783,146 @@ def d1_space():
         for r in (1, 2):
             out.append(['Pseed', seed, ['Pshuffle', [1, 2, 3], r]])
     return out
+
+
+def d1_wide():
+    """Depth 1, widened parameter alphabets: zero repeats / lengths, omitted
+    (default) arguments, one-element lists, zero / negative / float / list
+    (chord) items, Pslide windows that start outside the list, are empty,
+    longer than the list or do not move, negative stutter counts, Pwrap
+    bounds away from 0, float and zero sums, float series."""
+    out = []
+    # --- zero repeats / length: the empty sequence ---
+    for o in (0, 1):
+        out.append(['Pseq', [1, 2], 0, o])
+        out.append(['Pser', [1, 2], 0, o])
+        out.append(['Place', [1, [2, 3]], 0, o])
+    out.append(['Ptuple', [1, 2], 0])
+    out.append(['Pn', 1, 0])
+    out.append(['Pseries', 0, 1, 0])
+    out.append(['Pgeom', 1, 2, 0])
+    for wrap in (True, False):
+        out.append(['Pslide', [1, 2, 3], 2, 1, 0, wrap, 0])
+    out.append(['Pseed', SEED1, ['Pwhite', 0, 3, 0]])
+    out.append(['Pseed', SEED1, ['Prand', [1, 2, 3], 0]])
+    out.append(['Pseed', SEED1, ['Pshuffle', [1, 2, 3], 0]])
+    # --- one repeat / one element ---
+    for r in (1, 3, I):
+        out.append(['Pseq', [5], r, 0])
+        out.append(['Pser', [5], r, 0])
+    for o in (0, 1, 2):
+        out.append(['Pser', [1, 2, 3], 1, o])
+    out.append(['Ptuple', [5], 2])
+    out.append(['Ptuple', [1, 2], I])
+    # --- item alphabets ---
+    for lst in ([0, -1, 2], [0.5, -1.5, 0], [1, [2, 3]], [[1, 2], [3]],
+                [False, True, 0], [1, 2, 3, 4]):
+        for r in (1, 2, I):
+            for o in (0, 1):
+                out.append(['Pseq', lst, r, o])
+        for r, o in ((2, 0), (4, 1), (5, 2 % len(lst)), (I, 1)):
+            out.append(['Pser', lst, r, o])
+    out.append(['Ptuple', [0, [1, 2]], 2])
+    out.append(['Pn', 0, 3])
+    out.append(['Pn', [1, 2], 2])
+    out.append(['Pn', 0.5, I])
+    for wh in (0, 1):
+        out.append(['Pswitch', [0, [1, 2], -3], wh])
+        out.append(['Pswitch1', [0, [1, 2], -3], wh])
+    for r in (1, 4):
+        for o in (0, 2):
+            out.append(['Place', [0, [-1, 2.5], [3, 4, 5]], r, o])
+    # --- omitted arguments: the documented defaults ---
+    for lst in ([1, 2], [1, 2, 3]):
+        out.append(['Pseq', lst])
+        out.append(['Pseq', lst, 2])
+        out.append(['Pseq', lst, I])
+        out.append(['Pser', lst])
+        out.append(['Pser', lst, 4])
+        out.append(['Ptuple', lst])
+        out.append(['Pswitch', lst])
+        out.append(['Pswitch1', lst])
+        out.append(['Pslide', lst])
+        out.append(['Pslide', lst, 2])
+        out.append(['Pslide', lst, 2, 2])
+        out.append(['Pslide', lst, 2, 1, 1])
+        out.append(['Pslide', lst, 2, 1, 2, False])
+        out.append(['Pslide', lst, 4, 1, 0, False])
+    out.append(['Pslide', [1, 2, 3, 4, 5]])
+    out.append(['Place', [1, [2, 3]]])
+    out.append(['Place', [1, [2, 3]], 2])
+    out.append(['Place', [1, [2, 3]], I])
+    out.append(['Pn', 1])
+    for a in ([], [2], [2, 3], [0.5], [0.5, 0.25]):
+        out.append(['Pseries'] + a)
+        out.append(['Pgeom'] + a)
+    out.append(['Pseed', SEED1, ['Pwhite', 0, 3]])
+    out.append(['Pseed', SEED1, ['Prand', [1, 2, 3]]])
+    out.append(['Pseed', SEED1, ['Pshuffle', [1, 2, 3]]])
+    # --- Pslide window alphabets ---
+    for ln in (0, 1, 2, 5):
+        for st in (0, 1, -2, 3):
+            for start in (-1, 0, 2, 3, 4):
+                for wrap in (True, False):
+                    for r in (1, 3):
+                        out.append(['Pslide', [1, 2, 3], ln, st, start, wrap,
+                                    r])
+    for ln in (0, 1):
+        for wrap in (True, False):
+            out.append(['Pslide', [1, 2, 3], ln, 1, 0, wrap, I])
+    for st in (1, -1):
+        for wrap in (True, False):
+            out.append(['Pslide', [0, [1, 2], -3, 0.5], 3, st, 1, wrap, 3])
+    # --- filters over constants ---
+    for n in (-2, -1):
+        out.append(['Pstutter', 3, n])
+    out.append(['Pclump', 3, 0])
+    for n in (1, 5):
+        out.append(['Plen', 0, n])
+        out.append(['Pdrop', 0.5, n])
+    for lo, hi in ((1, 3), (-1, 1), (2, 2), (-3, -1)):
+        for v in (5, 0, -4):
+            out.append(['Pwrap', v, lo, hi])
+    for v, tot in ((3, 0), (3, 2.5), (0.5, 2), (1.5, 4), (0, 1), (-1, 2)):
+        out.append(['Pconst', v, tot])
+    out.append(['Pdiff', 0.5])
+    out.append(['Pflatten', [1, 2], 1])
+    out.append(['Pflatten', [1, 2], 2])
+    # --- series ---
+    for start, step in ((0.5, 0.25), (-1, 0), (0, -1), (2, 0.5), (-2, 3)):
+        for ln in (1, 4, I):
+            out.append(['Pseries', start, step, ln])
+    for start, grow in ((1, 0.5), (2, 0), (0, 3), (-2, -2), (0.5, 2), (3, 1)):
+        for ln in (1, 4, I):
+            out.append(['Pgeom', start, grow, ln])
+    # --- random patterns: pattern-valued and reversed bounds ---
+    for seed in (SEED1, 7):
+        out.append(['Pseed', seed, ['Pwhite', pseq([0, 1]), 3, I]])
+        out.append(['Pseed', seed, ['Pwhite', 0, pseq([2, 3, 4]), I]])
+        out.append(['Pseed', seed, ['Pwhite', pseq([0, 1], I), 3, 3]])
+        out.append(['Pseed', seed, ['Pwhite', 3, 0, 2]])
+        out.append(['Pseed', seed, ['Pwhite', 2, 2, 2]])
+        out.append(['Pseed', seed, ['Pwhite', -2, 1, 4]])
+        out.append(['Pseed', seed, ['Prand', [0, -1, 0.5], 4]])
+        out.append(['Pseed', seed, ['Prand', [5], 2]])
+        out.append(['Pseed', seed, ['Pshuffle', [0, -1, 0.5, 7], 2]])
+        out.append(['Pseed', seed, ['Pshuffle', [1, 2, 3], I]])
+    out.append(['Pseed', pseq([7, 8], 2), ['Pwhite', 0, 3, 2]])
+    out.append(['Pseed', pseq([7, 7]), ['Pshuffle', [1, 2, 3], 1]])
+    # --- operators over a constant-free operand: every selector ---
+    for x in (pseq([1, 2, 3]), pseq([0, -2, 2.5])):
+        for op in ('pos', 'invert'):
+            out.append(['unop', op, x])
+        for op in XBINOPS:
+            for k in (2, -1):
+                out.append(['binop', op, x, k])
+                out.append(['binop', op, k, x])
+    return out
+
+
+# binary selectors beyond add / sub / mul / lt / min
+XBINOPS = ('le', 'gt', 'ge', 'eq', 'ne', 'div', 'floordiv', 'mod', 'pow',
+           'max')
 
 
 # representative children (values 4.. so that they differ from parent leaves)
@@ -783,6 +1000,143 @@ def filters_over(x):
     yield ['Pswitch1', [1, 2, 3], x]
 
 
+def filters_wide(x):
+    """Further single-child uses: widened parameter alphabets (zero repeats,
+    omitted arguments, negative counts, bounds away from 0, float / zero
+    sums, windows starting outside the list) and an integer Pseed seed."""
+    yield ['Pn', x, 0]
+    yield ['Pn', x]
+    yield ['Pstutter', x, -2]
+    yield ['Pdrop', x, 2]
+    yield ['Plen', x, 3]
+    for lo, hi in ((1, 3), (-1, 1)):
+        yield ['Pwrap', x, lo, hi]
+    for t in (0, 2.5):
+        yield ['Pconst', x, t]
+    yield ['Pcollect', 'double', x]
+    yield ['Preject', 'gt1', x]
+    yield ['Ptuple', [x, 9], I]
+    yield ['Ptuple', [x]]
+    yield ['Pseq', [x, 0], 0, 1]
+    yield ['Pseq', [x, 0]]
+    yield ['Pser', [x, 0]]
+    yield ['Pser', [0, x], 2, 1]
+    yield ['Place', [[0, x], x], 2]
+    yield ['Pslide', [x, 8, 9]]
+    yield ['Pslide', [x, 8, 9], 2, 1, -1, True, 2]
+    yield ['Pslide', [8, x, 9], 2, -2, 1, False, 3]
+    yield ['Pslide', [8, 9, x], 2, 1, 2, False, 2]
+    yield ['Pseries', 0.5, x, 4]
+    yield ['Pgeom', -1, x]
+    yield ['Pswitch', [x, 0]]
+    yield ['Pswitch1', [0, x], 1]
+    yield ['Pseed', 7, x]
+    yield ['narop', 'clip', x, -1, 1]
+
+
+def ops_wide(x):
+    """Every further operator selector with a scalar on either side."""
+    for op in ('pos', 'invert'):
+        yield ['unop', op, x]
+    for op in XBINOPS:
+        yield ['binop', op, x, 2]
+        yield ['binop', op, 2, x]
+    yield ['binop', 'max', x, x]
+    yield ['binop', 'eq', x, x]
+
+
+# children from the widened alphabets: empty by zero repeats, library
+# defaults, zero / negative / float / chord items, windows starting outside
+# the list, negative stutter, integer seed, bounds given by patterns, and the
+# further operator selectors
+EDGEKIDS = [
+    ['Pseq', [4, 5], 0, 0],
+    ['Pn', 4, 0],
+    ['Pseq', [0, -1, 2]],
+    ['Pseq', [0.5, -1.5, 0], 2, 1],
+    ['Pseq', [4, [5, 6]], 1, 0],
+    ['Pser', [4, 5, 6]],
+    ['Pn', 4],
+    ['Pseries'],
+    ['Pgeom', 2, 0.5],
+    ['Pslide', [4, 5, 6, 7]],
+    ['Pslide', [4, 5, 6], 2, 1, -1, True, 2],
+    ['Pslide', [4, 5, 6], 2, -2, 1, False, 3],
+    ['Pstutter', ['Pseq', [4, 5], 1, 0], -2],
+    ['Pseed', 7, ['Pwhite', 0, 3, 2]],
+    ['Pseed', SEED1, ['Pwhite', ['Pseq', [0, 1], 1, 0], 3]],
+    ['binop', 'div', ['Pseq', [4, 5, 6], 1, 0], 2],
+    ['binop', 'eq', ['Pseq', [4, 5, 4], 1, 0], 4],
+    ['unop', 'invert', ['Pseq', [4, 5], 1, 0]],
+]
+
+# function patterns with pattern operands (Pif is embedded through the
+# stream its __stream__ builds from three fresh operand streams)
+FUNKIDS = [
+    ['Pif', ['Pseq', [True, False], I, 0], ['Pseq', [1, 2, 3], 1, 0],
+     ['Pseq', [10, 20], 1, 0]],
+    ['Pif', ['Pseq', [True, False, False, True], 1, 0],
+     ['Pseq', [1, 2], I, 0], ['Pseries', 5, 1, 3]],
+    ['Pif', ['binop', 'lt', ['Pseq', [1, 2, 3], 2, 0], 2], 4,
+     ['Pseq', [5, 6, 7], 1, 0]],
+]
+
+
+def edgekids_space():
+    for x in EDGEKIDS:
+        yield x
+        yield from embedders_over(x)
+        yield ['Pseq', [x, x], 2, 0]
+        yield ['Pswitch', [x, x], ['Pseq', [0, 1, 0], 1, 0]]
+        yield from filters_over(x)
+        yield from filters_wide(x)
+        yield from ops_wide(x)
+
+
+# unseeded random patterns, used only *inside* a Pseed (the seeded routine
+# must also govern a random child that a filter pulls through its stream)
+RANDKIDS = [['Pwhite', 0, 3, 3], ['Prand', [1, 2, 3], 3],
+            ['Pshuffle', [1, 2, 3], 2], ['Pwhite', 0, 3]]
+
+
+def randkids_space():
+    for x in RANDKIDS:
+        for seed in (SEED1, 7):
+            for e in list(filters_over(x)) + list(filters_wide(x)) + \
+                    list(embedders_over(x)):
+                yield ['Pseed', seed, e]
+        yield ['Pseed', ['Pseq', [7, 8], 1, 0], ['Pstutter', x, 2]]
+        yield ['Pseed', SEED1, ['binop', 'add', x, x]]
+        yield ['Pseed', SEED1, ['Ptuple', [x, x], 2]]
+
+
+def inner_filters(x):
+    """Single-child constructors used as the inner layer of depth 3."""
+    yield ['Pstutter', x, 2]
+    yield ['Pstutter', x, ['Pseq', [2, 0, 1], 1, 0]]
+    yield ['Pclump', x, 2]
+    yield ['Pdrop', x, 1]
+    yield ['Plen', x, 3]
+    yield ['Pdiff', x]
+    yield ['Pconst', x, 5]
+    yield ['Pcollect', 'add10', x]
+    yield ['Pselect', 'even', x]
+    yield ['Pn', x, 2]
+    yield ['Pseq', [x, 9], 2, 1]
+    yield ['Pwrap', x, 1, 3]
+    yield ['binop', 'sub', 10, x]
+    yield ['Pseries', 0, x, 4]
+
+
+def filter_filter_space(pool):
+    """Depth 3: every single-child use over every inner single-child
+    constructor over the children of `pool`."""
+    for x in pool:
+        for y in inner_filters(x):
+            yield from filters_over(y)
+            yield from filters_wide(y)
+
+
 def embedders_over(x):
     """The 8 constructors that embed / stream children, one child x."""
     for r in (2, I):
@@ -837,6 +1191,12 @@ def pairs_space(pool, small, full=True):
             yield ['Pstutter', a, b]
             yield ['Pclump', a, b]
             yield ['Place', [[a, 9], b], 3, 0]
+            if full and is_node(a) and is_node(b):
+                for op in ('mul', 'lt', 'eq', 'div', 'mod', 'max'):
+                    yield ['binop', op, a, b]
+            if full:
+                yield ['Pseed', SEED1, ['Pwhite', a, b, 3]]
+                yield ['Pslide', [a, b, 9], 2, 1, -1]
 
 
 # operator patterns whose operands are finite, non-constant patterns of
@@ -863,7 +1223,7 @@ def opkids_space():
     """Every operator child at top level, under each of the 8 embedding
     constructors, used twice as one shared object, and under every
     single-child constructor."""
-    for x in OPKIDS:
+    for x in OPKIDS + FUNKIDS:
         yield x
         yield from embedders_over(x)
         yield ['Pseq', [x, x], 2, 0]
@@ -895,18 +1255,22 @@ def extras_space():
 
 
 _CACHE = {}
+QUICK_SLICES = 8    # quick explores 1/8 of the two widest new families
 
 
-def generate(tier):
-    if tier not in _CACHE:
+def generate(tier, slice_ix=0):
+    key = (tier, slice_ix)
+    if key not in _CACHE:
         _CACHE.clear()
-        _CACHE[tier] = _generate(tier)
-    return _CACHE[tier]
+        _CACHE[key] = _generate(tier, slice_ix)
+    return _CACHE[key]
 
 
-def _generate(tier):
+def _generate(tier, slice_ix=0):
     """All cases of a tier in canonical order (simplest first), deduplicated.
-    Returns list of (bound label, expr)."""
+    Returns list of (bound label, expr).  `slice_ix` (from VERIF_SEED) only
+    selects which 1/QUICK_SLICES of the two widest families of the thorough
+    tier the quick tier runs in addition to its fixed space."""
     seen = set()
     out = []
 
@@ -918,6 +1282,9 @@ def _generate(tier):
     d1 = d1_space()
     for e in d1:
         add('depth1', e)
+    d1w = d1_wide()
+    for e in d1w:
+        add('depth1-wide', e)
     # Pslide has 72 depth-1 variants; as a *child* the 18 with length 2 and
     # start 0 are used in the quick tier, all of them in the thorough tier.
     slim = [x for x in d1
@@ -931,10 +1298,35 @@ def _generate(tier):
         add('depth2', e)
     for e in opkids_space():
         add('depth' + str(min(depth(e), 3)) + '-opchild', e)
+    # --- widened alphabets at depth 2 ---
+    for x in slim:
+        for e in filters_wide(x):
+            add('depth2-wide', e)
+    for x in R:
+        for e in ops_wide(x):
+            add('depth2-wide', e)
+    for e in edgekids_space():
+        add('depth' + str(min(depth(e), 3)) + '-edgechild', e)
+    for e in randkids_space():
+        add('depth3-seeded-random', e)
+    # the two widest families: every single-child use over every widened
+    # depth-1 expression, and filter over filter (depth 3)
+    wide2 = [e for x in d1w
+             for e in list(filters_over(x)) + list(filters_wide(x))]
+    ff = list(filter_filter_space(R2 if tier == 'quick' else R))
+    if tier == 'quick':
+        wide2 = wide2[slice_ix % QUICK_SLICES::QUICK_SLICES]
+        ff = ff[slice_ix % QUICK_SLICES::QUICK_SLICES]
+    for e in wide2:
+        add('depth2-wide-slice' if tier == 'quick' else 'depth2-wide', e)
+    for e in ff:
+        add('depth3-filter-over-filter', e)
     if tier == 'thorough':
         for x in d1:
             for e in filters_over(x):
                 add('depth2', e)
+            for e in filters_wide(x):
+                add('depth2-wide', e)
         for e in pairs_space(slim, R, full=False):
             add('depth2-wide', e)
         d1e = [x for x in slim if x[0] in EMBED8]
@@ -958,7 +1350,7 @@ def _generate(tier):
 
 def work(job):
     acc = progenum.Acc()
-    cases = generate(job['tier'])
+    cases = generate(job['tier'], job.get('slice_ix', 0))
     for idx, (label, expr) in enumerate(cases):
         if idx % job['of'] != job['shard']:
             continue
@@ -980,24 +1372,45 @@ def work(job):
 def main(ctx):
     ctx.rule = (
         'E1: every expression of the grammar is built with the public '
-        'constructors/operators (equal sub-expressions share one object). '
+        'constructors/operators (equal sub-expressions share one object; '
+        'trailing arguments may be omitted so that the library default '
+        'applies). '
         'quick: all 177 depth-1 expressions (29 constructors over leaf '
-        'arguments, parameter domains of 2-4 values incl. inf); every '
-        'single-child use (65 variants: filters, operators, pattern-valued '
-        'step/index, 3-item lists, Place) over 123 depth-1 children; '
-        'two/three-child constructors (Pseq, Pser, Ptuple, binop, Pswitch, '
-        'Pswitch1, Pif, narop, Pwrap, Pstutter, Pclump, Place) over pairs '
-        'from an 18-element child pool; pattern-valued Pslide length/step, '
-        'Pflatten(Pclump), nested Pseed; 9 operator patterns (clip/neg/abs/'
-        'sub/mul) with finite, non-constant, differing-length pattern '
-        'operands at top level, under each of the 8 embedding constructors, '
-        'shared twice in one list, and under every single-child use. '
-        'thorough adds single-child uses '
+        'arguments, parameter domains of 2-4 values incl. inf) plus 639 '
+        'depth-1 expressions over widened alphabets (zero repeats/lengths, '
+        'omitted arguments, one-element lists, zero/negative/float/boolean/'
+        'list items, Pslide windows that are empty, longer than the list, '
+        'motionless or start outside the list, negative stutter counts, '
+        'Pwrap bounds away from 0, float and zero Pconst sums, float '
+        'series, pattern-valued and reversed Pwhite bounds, integer seeds, '
+        '10 further binary and 2 further unary selectors with a scalar on '
+        'either side); every single-child use (65 variants: filters, '
+        'operators, pattern-valued step/index, 3-item lists, Place; plus 28 '
+        'variants over the widened alphabets) over 123 depth-1 children; '
+        'two/three-child constructors (Pseq, Pser, Ptuple, 8 binary '
+        'selectors, Pswitch, Pswitch1, Pif, narop, Pwrap, Pstutter, Pclump, '
+        'Place, Pwhite bounds, Pslide) over pairs from an 18-element child '
+        'pool; pattern-valued Pslide length/step, Pflatten(Pclump), nested '
+        'Pseed; 9 operator patterns (clip/neg/abs/sub/mul) and 3 Pif '
+        'patterns with finite, non-constant, differing-length pattern '
+        'operands, and 18 children from the widened alphabets, each at top '
+        'level, under each of the 8 embedding constructors, shared twice in '
+        'one list, and under every single-child use; 4 unseeded random '
+        'patterns under every single-child use and embedding constructor '
+        'inside a Pseed; a seed-selected 1/8 of (a) every single-child use '
+        'over the 639 widened depth-1 expressions and (b) depth 3 = every '
+        'single-child use over 14 inner single-child constructors over 8 '
+        'children. thorough runs (a) and (b) completely ((b) over 18 '
+        'children) and adds single-child uses '
         'over all 177 children, pairs over 123 children and depth 3 (8 '
         'embedding constructors applied twice, then every single-child use '
         'on top). Each expression is run via stream.next(inval), the '
-        'iterator protocol, list()/all() when finite, and two streams of '
-        'one pattern in all 16 interleavings of length 4; first 24 items + '
+        'iterator protocol, the stm.embed(p, inval) generator, list()/all() '
+        'when finite; fresh streams of one pattern must give the identical '
+        'sequence; two streams of one pattern run in all 16 interleavings '
+        'of length 4 and in two long schedules (strict alternation and a '
+        'block of one stream inside the other, 8 items each, streams made '
+        'at first use); first 24 items + '
         'end position compared with the reference. Non-trivial = a pattern '
         'is nested inside a pattern (depth >= 2); cases are deduplicated, '
         'so every case is a distinct expression.')
@@ -1008,16 +1421,24 @@ def main(ctx):
         'list, Pflatten on nested lists/tuples or n<1, operators on list '
         'values, structure depending on random values, endless non-yielding '
         'loops, Pconst within tolerance of the sum, behaviour after the end '
-        'of a stream, container type (list/tuple) of Ptuple/Pclump values',
+        'of a stream, container type (list/tuple) of Ptuple/Pclump values, '
+        'numeric-kernel matters (clip of an integer/boolean value by '
+        'non-integer bounds, modulo by a non-positive number, division by '
+        'zero, powers outside 0..16, bitwise operators on non-integers, '
+        'Pwrap of non-integers)',
         'random patterns (only under Pseed) are checked for membership in '
         'the documented value set, Pshuffle blocks for being one repeated '
-        'permutation, and for repeatability; not for distribution',
+        'permutation, and for repeatability (every fresh stream of the '
+        'pattern gives the identical sequence); not for distribution',
         f'prefix of {CAP} items per run; every library run is guarded by a '
         f'deterministic budget of {BUDGET} events (function starts, '
         'generator resumes, jumps, branches via sys.monitoring)']
     ctx.extra['cap_items_per_run'] = CAP
     ctx.extra['step_budget_lines'] = BUDGET
-    jobs = [{'shard': i, 'of': NSHARDS, 'tier': ctx.tier}
+    slice_ix = core.pick_slice(ctx.seed, QUICK_SLICES)
+    ctx.extra['quick_slice'] = f'{slice_ix} of {QUICK_SLICES}'
+    jobs = [{'shard': i, 'of': NSHARDS, 'tier': ctx.tier,
+             'slice_ix': slice_ix}
             for i in range(NSHARDS)]
     progenum.run(ctx, MODNAME, 'work', jobs, mode='nrt',
                  bound='depth<=2' if ctx.tier == 'quick' else 'depth<=3')
@@ -1032,8 +1453,11 @@ def pred_pslide_nowrap_negative(v):
     """The minimal failing case is a Pslide with wrap=False whose position
     can become negative (negative step or pattern-valued step)."""
     for e in subexprs(v['case']['expr']):
-        if e[0] == 'Pslide' and e[5] is False and \
-                (is_node(e[3]) or (isinstance(e[3], int) and e[3] < 0)):
+        if e[0] != 'Pslide':
+            continue
+        step, wrap = slide_args(e)[1], slide_args(e)[3]
+        if wrap is False and \
+                (is_node(step) or (isinstance(step, int) and step < 0)):
             return True
     return False
 
